@@ -83,6 +83,13 @@ def generate(rng, tier):
                 b = [a[-1] if same_start else a[-1] + 10] + [rng.choice([1, 2, 3, 5, a[0]]) for _ in range(rng.choice([0, 1, 2, 4]))]
                 c3 = [b[-1], a[0]] if same_start else [b[-1] + 20, a[0]]
                 cases.append({'op': op, 'seqs': [[enc(x) for x in s] for s in (a, b, [], c3)], 'order': rng.random(), 'b2b': True})
+    # integer parameters that are int-like but not `int` (numpy.int64: sizes computed with numpy)
+    if tier != 'search':
+        for op in [['batch', 2], ['batch', 3], ['batch', 1], ['take', 2], ['take', 0], ['lag', 1], ['lag', 2],
+                   ['pad_start', 2, enc(None)], ['pad_end', 2, enc(77)]]:
+            seqs = [[enc(x) for x in range(rng.choice([0, 1, 2, 5, 6, 7]))] for _ in range(rng.choice([1, 2]))] + \
+                   [[enc(x) for x in range(7)]]
+            cases.append({'op': op + ['np64'], 'seqs': seqs, 'order': rng.random()})
     # scale: parameters and sequence lengths beyond small-int / buffer / type-width thresholds (257+, 300, 1000+); a
     # fixed list of operators, every one in every run, on sequences around and beyond twice the parameter
     def scale_ops():
